@@ -15,7 +15,10 @@ import trainer_io as T
 from consts import trainer_io as K
 
 ID = "C07"
-TRUSTED = ["CPython repr(float)/float(str) round trip and the character set of repr (checked on every probability on disk)",
+TRUSTED = ["harness/translate_writer.py: the reading it gives to its Python subset, and coq/theories/WriterRt.v (statement sequences as "
+           "out/bind, try/except Exception, the disk as a finite map from paths to text with os.walk / os.unlink / open 'w' / "
+           "write, the codec as the per-character oracle encb, str(float) as the oracle repr, a None Counter key as its str())",
+           "CPython repr(float)/float(str) round trip and the character set of repr (checked on every probability on disk)",
            "codecs encode/decode of the ruleset encoding; configparser and json for config.ini",
            "str.splitlines / str.rstrip / int(): probed over all code points on every run, compared with the model on every file"]
 ASSUMES = ["alpha values are the lower-cased segment: str.lower() never yields a TAB or a line break from other characters (swept on every run)",
